@@ -333,7 +333,7 @@ def impl(case):
                 f2.setCoords([v['name'] for v in s2['vars'] if v['name'] in dimnames])
             with lib.pnc_warnings():
                 o2 = stack_files(fs2, case['dim'])
-            res['legacy'] = pfile.observe(o2, with_unlim=False, spec=_hide(case))
+            res['legacy'] = pfile.observe(o2, with_unlim=True, spec=_hide(case))
         except Exception as e:
             res['legacy_err'] = '%s: %s' % (type(e).__name__, str(e)[:80])
     return res
@@ -445,7 +445,7 @@ def _legacy_diff(ref, legacy, case):
     """(None|'maskloss'|'other', message): stack_files vs the reference observation; 'maskloss' = the only
     differences are masked cells of variables WITHOUT the stack dimension that come back as the fill value"""
     a, b = pfile.parse_obs(ref), pfile.parse_obs(legacy)
-    if {k: v[0] for k, v in a['dims'].items()} != {k: v[0] for k, v in b['dims'].items()}:
+    if a['dims'] != b['dims']:           # lengths and unlimited flags
         return 'other', 'dimensions %s vs %s' % (a['dims'], b['dims'])
     if sorted(a['vars']) != sorted(b['vars']):
         return 'other', 'variables %s vs %s' % (sorted(a['vars']), sorted(b['vars']))
